@@ -140,8 +140,8 @@ Print Assumptions C02_manly.
    positive entries with sum < 1, softmax_jac_row x is the determinant of the
    n x n matrix of partial derivatives d forward_i / d x_j
    (= diag(1/x_i) + 1/(1-s) 1 1^T; matrix determinant lemma).
-   Proved: dimension 1 and dimension 2 (explicit partial derivatives and
-   determinant) - softmax_jac_det_partial. ---- *)
+   Proved: dimensions 1, 2 and 3 (explicit partial derivatives and
+   determinants) - softmax_jac_det_partial. ---- *)
 Theorem C02_softmax_jac_pos :
   (forall x, row_pos x -> rsum x < 1 -> 0 < softmax_jac_row x) /\
   (forall xs js, softmax_dom xs -> softmax_jac xs = Some js -> List.Forall (fun j => 0 < j) js).
@@ -157,8 +157,21 @@ Theorem C02_softmax_jac_det_partial :
        is_derive (fun t => nth 0 (softmax_fwd_row [x1; t]) 0) x2 d12 /\
        is_derive (fun t => nth 1 (softmax_fwd_row [t; x2]) 0) x1 d21 /\
        is_derive (fun t => nth 1 (softmax_fwd_row [x1; t]) 0) x2 d22 /\
-       d11 * d22 - d12 * d21 = softmax_jac_row [x1; x2]).
-Proof. exact (conj softmax_jac_det_1 softmax_jac_det_2). Qed.
+       d11 * d22 - d12 * d21 = softmax_jac_row [x1; x2]) /\
+  (forall x1 x2 x3, 0 < x1 -> 0 < x2 -> 0 < x3 -> x1 + x2 + x3 < 1 ->
+     exists d11 d12 d13 d21 d22 d23 d31 d32 d33 : R,
+       is_derive (fun t => nth 0 (softmax_fwd_row [t; x2; x3]) 0) x1 d11 /\
+       is_derive (fun t => nth 0 (softmax_fwd_row [x1; t; x3]) 0) x2 d12 /\
+       is_derive (fun t => nth 0 (softmax_fwd_row [x1; x2; t]) 0) x3 d13 /\
+       is_derive (fun t => nth 1 (softmax_fwd_row [t; x2; x3]) 0) x1 d21 /\
+       is_derive (fun t => nth 1 (softmax_fwd_row [x1; t; x3]) 0) x2 d22 /\
+       is_derive (fun t => nth 1 (softmax_fwd_row [x1; x2; t]) 0) x3 d23 /\
+       is_derive (fun t => nth 2 (softmax_fwd_row [t; x2; x3]) 0) x1 d31 /\
+       is_derive (fun t => nth 2 (softmax_fwd_row [x1; t; x3]) 0) x2 d32 /\
+       is_derive (fun t => nth 2 (softmax_fwd_row [x1; x2; t]) 0) x3 d33 /\
+       d11 * (d22 * d33 - d23 * d32) - d12 * (d21 * d33 - d23 * d31)
+         + d13 * (d21 * d32 - d22 * d31) = softmax_jac_row [x1; x2; x3]).
+Proof. exact (conj softmax_jac_det_1 (conj softmax_jac_det_2 softmax_jac_det_3)). Qed.
 Print Assumptions C02_softmax_jac_det_partial.
 
 (* ---- non-vacuity: the hypotheses above are met by concrete instances (parameter
@@ -182,7 +195,8 @@ Example C02_nonvacuous :
   ((exists j, recip_jac 2 (1 / 2) = Some j) /\ - 2 < 1 / 2 /\ (1 / 2 : R) < 1) /\
   (* Softmax *)
   ((exists js, softmax_jac [[1/4; 1/4]; [1/2]] = Some js) /\
-   (0 < 1 / 4 < 1) /\ (0 < 1 / 4 /\ 0 < 1 / 4 /\ 1 / 4 + 1 / 4 < 1)).
+   (0 < 1 / 4 < 1) /\ (0 < 1 / 4 /\ 0 < 1 / 4 /\ 1 / 4 + 1 / 4 < 1) /\
+   (0 < 1 / 4 /\ 1 / 4 + 1 / 4 + 1 / 4 < 1)).
 Proof.
   exact (conj ex2_logit (conj ex2_log (conj ex2_bc2 (conj ex2_yj (conj ex2_logsinh
         (conj ex2_recip ex2_softmax)))))).
